@@ -23,20 +23,32 @@ RULE = ("Secrets over {1, 2, n-1, n-2, 2^128 +-1, 2^255 +-1} and digests over {0
         "u1*G = u2*Q, z = 0, public keys with x in {1, 2, 3}, x next to p, G, -G, 2G (tuples forged from u1, u2); "
         "chosen-nonce raw s on both sides of n/2, of 1 and of n; DER integers of every byte length 1..32 x leading "
         "byte {01, 7e, 7f, 80, 81, ff} x second byte {00, 7f, 80, ff}; RFC 6979 with an HMAC whose V outputs are "
-        "replaced by {0, 1, n-1, n, n+1, 2^256-1} so that every candidate comparison and the retry step run.")
+        "replaced by {0, 1, n-1, n, n+1, 2^256-1} so that every candidate comparison and the retry step run.  "
+        "Deepening (Props/C01.v sections 6-10): RFC 6979 as 'first acceptable candidate' — nonce AND number of rejected "
+        "candidates (HMAC call count 5 + 3i) against the extracted sequence spec, with the weak and the boundary HMAC; "
+        "DER strictness: emitted strings, raw bodies with 0-2 superfluous zero octets x leading byte {00, 01, 7f, 80, ff} "
+        "x body lengths {1, 2, 32, 33, 34}, bodies of 60-250 bytes, every truncation / byte flip / wrong length byte, "
+        "random (framed) strings — Signature.parse(b).der() == b exactly on strict DER; the outer API "
+        "sign(z).der(), sign_message, verify(z, Signature.parse(b)), verify_message, S256Point.parse(sec).verify(...) on "
+        "valid input, padded / truncated / trailing / swapped encodings, SEC compressed / uncompressed / x-only / other "
+        "parity / bad prefix / short / off-curve / x >= p, bad secrets and digests; twin (r, n-s) for s in "
+        "{valid, 0, n, -s, random, s+n} and the infinity key; digests z mod n, z +- n, z + 5n; the second digest "
+        "-z - 2rd; tuples forged for the infinity key.")
 TRUSTED = ["hashlib/hmac (HMAC-SHA256 is a universally quantified function in the RFC 6979 theorem)",
            "CPython pow(b, e, m) — modelled by square-and-multiply (Model/Pecc.v modpow)",
            "harness reference implementation props/ecref.py (independent ECDSA/RFC 6979/DER on Python ints) — "
            "used only as a second judge next to the extracted Coq spec"]
-ASSUMPTIONS = ["scalar_laws secp256k1 (group axioms, order n, n prime) — explicit hypothesis of C01_sign_verifies and "
-               "C01_verify_iff_ecdsa, discharged on the toy curve only",
+ASSUMPTIONS = ["scalar_laws secp256k1 (group axioms, order n, n prime) — explicit hypothesis of C01_sign_verifies, "
+               "C01_verify_iff_ecdsa and of the group-level theorems of sections 8-10 (twin, second digest, API round "
+               "trips), discharged on the toy curve only",
                "C01_sign_verifies side conditions r < n, r mod n <> 0, s <> 0: the code neither reduces r mod n "
                "nor retries; no input exhibiting them can be constructed (probability < 2^-127 per signature)"]
 
 TWO256 = 2 ** 256
 # secp256k1 scalar multiplications do not finish under vm_compute inside Coq in the self-check's time limit (the
 # whole self-check was skipped by its timeout): the curve functions are left to the extracted driver only
-VM_SKIP = {"sign", "sign_k", "pubkey", "verify", "ecdsa_ok"}
+VM_SKIP = {"sign", "sign_k", "pubkey", "verify", "ecdsa_ok", "sign_der", "sign_message", "sign_message_der",
+           "verify_der", "verify_message", "verify_message_der", "verify_wire"}
 
 
 def _mk_key(d):
@@ -187,6 +199,51 @@ def i_der_parse(b):
     return [sig.r, sig.s]
 
 
+
+# ---- outer API (Model/EcdsaApi.v): compositions a user calls
+
+def _h256int(m):
+    return int.from_bytes(hashlib.sha256(hashlib.sha256(m).digest()).digest(), "big")
+
+
+def i_sign_message(d, m):
+    sig = PrivateKey(d).sign_message(m)
+    return [sig.r, sig.s]
+
+
+def i_verify_der(pv, z, b):
+    return _point(pv).verify(z, Signature.parse(b))
+
+
+def i_verify_message(pv, m, r, s):
+    return _point(pv).verify_message(m, Signature(r, s))
+
+
+def i_verify_wire(sec, z, b):
+    return S256Point.parse(sec).verify(z, Signature.parse(b))
+
+
+def _counted(hm, box):
+    def f(k, m):
+        box[0] += 1
+        return hm(k, m)
+    return f
+
+
+def _real_hm(k, m):
+    return _hmac.new(k, m, hashlib.sha256).digest()
+
+
+def i_rfc6979_seq(d, h1, hm=_real_hm):
+    """[number of rejected candidates, nonce]: deterministic_k performs 5 + 3 * rejected HMAC calls
+    (4 for steps d-g, one per candidate, two more per rejected candidate)"""
+    box = [0]
+    k = i_det_k_hm(d, int.from_bytes(h1, "big"), _counted(hm, box))
+    calls = box[0]
+    if calls < 5 or (calls - 5) % 3:
+        raise AssertionError(f"deterministic_k made {calls} HMAC calls")
+    return [(calls - 5) // 3, k]
+
 IMPL = {
     "det_k": i_det_k,
     "det_k_weak": i_det_k_weak,
@@ -199,6 +256,16 @@ IMPL = {
     "ecdsa_ok": i_verify,
     "der": lambda r, s: Signature(r, s).der(),
     "der_parse": i_der_parse,
+    "sign_der": lambda d, z: PrivateKey(d).sign(z).der(),
+    "sign_message": i_sign_message,
+    "sign_message_der": lambda d, m: PrivateKey(d).sign_message(m).der(),
+    "verify_der": i_verify_der,
+    "verify_message": i_verify_message,
+    "verify_message_der": lambda pv, m, b: _point(pv).verify_message(m, Signature.parse(b)),
+    "verify_wire": i_verify_wire,
+    "der_reencode": lambda b: Signature.parse(b).der(),
+    "rfc6979_seq": i_rfc6979_seq,
+    "rfc6979_seq_weak": lambda d, h1: i_rfc6979_seq(d, h1, lambda k, m: _weaken(_real_hm(k, m))),
 }
 
 # ---------------------------------------------------------------- property predicates
@@ -279,10 +346,6 @@ def p_der_rt(r, s):
     if (back.r, back.s) != (r, s):
         return "DER round trip changes (r, s)"
     return None
-
-
-def _h256int(m):
-    return int.from_bytes(hashlib.sha256(hashlib.sha256(m).digest()).digest(), "big")
 
 
 def p_key_reuse(d, d2, zs, order, msgs):
@@ -409,8 +472,146 @@ def p_bad_secret(d):
     return f"PrivateKey({d}) is accepted; its public point is {key.point!r}"
 
 
+
+def _ilen(v):
+    """octets of the minimal positive DER integer (Coq: der_ilen v = (log2 v + 9) / 8)"""
+    return (v.bit_length() - 1 + 9) // 8
+
+
+def p_api_roundtrip(d, z):
+    """PrivateKey(d).sign(z).der() -> Signature.parse -> verify under the key's point AND under the point parsed
+    back from either SEC form; the encoding is strict DER of exactly 6 + octets(r) + octets(s) <= 71 bytes and
+    re-encodes to itself (C01_api_sign_der_verify / _length / _wire_roundtrip, C01_der_length)."""
+    key = PrivateKey(d)
+    sig = key.sign(z)
+    enc = sig.der()
+    if not 8 <= len(enc) <= 71:
+        return f"DER signature of {len(enc)} bytes"
+    if len(enc) != 6 + _ilen(sig.r) + _ilen(sig.s) or enc[1] != len(enc) - 2:
+        return f"DER length {len(enc)} is not 6 + octets(r) + octets(s) = {6 + _ilen(sig.r) + _ilen(sig.s)}"
+    if ecref.der_strict_parse(enc) != (sig.r, sig.s):
+        return "the emitted encoding is not strict DER of (r, s)"
+    back = Signature.parse(enc)
+    if (back.r, back.s) != (sig.r, sig.s) or back.der() != enc:
+        return "parse / re-encode does not reproduce the signature"
+    if key.point.verify(z, back) is not True:
+        return "sign -> der -> parse -> verify is not True"
+    for compressed in (True, False):
+        pub = S256Point.parse(key.point.sec(compressed))
+        if pub.verify(z, Signature.parse(enc)) is not True:
+            return f"verification with the public key parsed from SEC (compressed={compressed}) is not True"
+    return None
+
+
+def p_msg_roundtrip(d, m, m2):
+    """sign_message / verify_message: z is the big-endian hash256; the signature is the reference's, verifies for m
+    and (m2 != m) is judged like the reference judges it for m2"""
+    key = PrivateKey(d)
+    sig = key.sign_message(m)
+    z = _h256int(m)
+    if (sig.r, sig.s) != ecref.ecdsa_sign(d, z):
+        return "sign_message is not the RFC 6979 signature over hash256(m)"
+    direct = key.sign(z)
+    if (direct.r, direct.s) != (sig.r, sig.s):
+        return "sign_message(m) differs from sign(hash256(m))"
+    if key.point.verify_message(m, sig) is not True:
+        return "verify_message rejects the signature of the same message"
+    q = ecref.mul(d, ecref.G)
+    got, want = key.point.verify_message(m2, sig), ecref.ecdsa_verify(q, _h256int(m2), sig.r, sig.s)
+    if got is not want:
+        return f"verify_message on another message answers {got!r}, textbook ECDSA {want}"
+    if key.point.verify_message(m, Signature.parse(sig.der())) is not True:
+        return "verify_message rejects the re-parsed signature"
+    # verify_message is verify on hash256(m): judged by the reference on the twin, on altered r / s and out of range
+    for (r2, s2) in ((sig.r, N - sig.s), (sig.r, sig.s + N), (sig.r + 1, sig.s), (sig.s, sig.r), (0, sig.s), (sig.r, 0)):
+        got, want = key.point.verify_message(m, Signature(r2, s2)), ecref.ecdsa_verify(q, z, r2, s2)
+        if got is not want:
+            return f"verify_message with (r, s) = ({r2}, {s2}) answers {got!r}, textbook ECDSA {want}"
+    return None
+
+
+def p_twin(pv, z, r, s):
+    """(r, n - s) is accepted exactly when (r, s) is, for every integer r, s (C01_verify_twin); only z mod n
+    matters (C01_verify_z_mod)"""
+    pt = _point(pv)
+    a, b = pt.verify(z, Signature(r, s)), pt.verify(z, Signature(r, N - s))
+    if a is not b:
+        return f"verify(r, s) = {a!r} but verify(r, n - s) = {b!r}"
+    if a is not ecref.ecdsa_verify(tuple(pv) if pv else None, z, r, s):
+        return f"verify answers {a!r}, textbook ECDSA differs"
+    for z2 in (z % N, z + N, z - N, z + 5 * N):
+        c = pt.verify(z2, Signature(r, s))
+        if c is not a:
+            return f"verify with the digest {z2} (same residue mod n) answers {c!r} instead of {a!r}"
+    return None
+
+
+def p_dup_digest(d, z):
+    """C01_verify_dup_digest: the signature (r, s) over z under d*G is accepted for z' = -z - 2 r d mod n as well
+    (R' = -R has the same x), and for no neighbour of z'.  Checked against the reference."""
+    key = PrivateKey(d)
+    sig = key.sign(z)
+    q = ecref.mul(d, ecref.G)
+    z2 = (-z - 2 * sig.r * d) % N
+    for zz, name in ((z, "z"), (z2, "-z-2rd"), ((z2 + 1) % N, "-z-2rd+1"), ((z2 - 1) % N, "-z-2rd-1")):
+        got, want = key.point.verify(zz, sig), ecref.ecdsa_verify(q, zz, sig.r, sig.s)
+        if got is not want:
+            return f"verify with digest {name} answers {got!r}, textbook ECDSA {want}"
+    if key.point.verify(z2, sig) is not True:
+        return "the second digest -z - 2rd is not accepted (the model proves it is)"
+    return None
+
+
+def p_der_strictness(b):
+    """Signature.parse(b).der() == b exactly when b is strict DER of two integers in [1, 2^256)
+    (C01_der_reencode_id_iff); whatever parse accepts is 30 L 02 lr R 02 ls S with exact lengths (C01_der_parse_iff)"""
+    strict = ecref.der_strict_parse(b)
+    strict_ok = strict is not None and all(1 <= v < TWO256 for v in strict)
+    try:
+        sig = Signature.parse(b)
+    except ImplTimeout:
+        raise
+    except Exception:  # noqa
+        if strict is not None:
+            return "Signature.parse rejects a strict DER string"
+        return None
+    # accepted: the frame must be exact
+    if len(b) < 8 or b[0] != 0x30 or b[1] != len(b) - 2 or b[2] != 2:
+        return f"Signature.parse accepts a string that is not a SEQUENCE of the stated length: {b.hex()}"
+    lr = b[3]
+    if lr == 0 or 4 + lr + 2 > len(b) or b[4 + lr] != 2:
+        return f"Signature.parse accepts a malformed first INTEGER: {b.hex()}"
+    ls = b[5 + lr]
+    if ls == 0 or 6 + lr + ls != len(b):
+        return f"Signature.parse accepts a malformed second INTEGER / trailing bytes: {b.hex()}"
+    if (sig.r, sig.s) != (int.from_bytes(b[4:4 + lr], "big"), int.from_bytes(b[6 + lr:], "big")):
+        return "Signature.parse does not return the big-endian values of the two bodies"
+    try:
+        again = sig.der()
+    except ImplTimeout:
+        raise
+    except Exception:  # noqa
+        again = None
+    if (again == b) is not strict_ok:
+        return (f"parse(b).der() == b is {again == b}, b strict DER of integers in [1, 2^256) is {strict_ok}: "
+                f"{b.hex()}")
+    return None
+
+
+def p_det_k_calls(d, z, salt):
+    """RFC 6979 as a sequence: the nonce is the FIRST candidate in [1, n-1] and deterministic_k stops there —
+    it performs exactly 5 + 3 * (number of rejected candidates) HMAC calls (C01_det_k_first / _seq_search_first)"""
+    k_ref, classes = edge_trace(d, z % TWO256, salt)
+    got = i_rfc6979_seq(d, (z % TWO256).to_bytes(32, "big"), _edge_hm(salt))
+    if got != [len(classes) - 1, k_ref]:
+        return (f"deterministic_k returned {got[1]} after {got[0]} rejected candidates; the first acceptable "
+                f"candidate of the RFC 6979 sequence is {k_ref} after {len(classes) - 1}")
+    return None
+
 PROPS = {"sign": p_sign, "verify_ref": p_verify_ref, "sign_k": p_sign_k, "der_rt": p_der_rt,
-         "key_reuse": p_key_reuse, "det_k": p_det_k, "det_k_hm": p_det_k_hm, "bad_secret": p_bad_secret}
+         "key_reuse": p_key_reuse, "det_k": p_det_k, "det_k_hm": p_det_k_hm, "bad_secret": p_bad_secret,
+         "api_roundtrip": p_api_roundtrip, "msg_roundtrip": p_msg_roundtrip, "twin": p_twin,
+         "dup_digest": p_dup_digest, "der_strictness": p_der_strictness, "det_k_calls": p_det_k_calls}
 
 # ---- time limits.  The engine arms a 60 s (IMPL) / 120 s (PROPS) alarm per case; the calls of this module take
 # milliseconds (DER, HMAC) to a few tenths of a second (one scalar multiplication), so a non-terminating loop in
@@ -435,8 +636,12 @@ def _timed(name, fn, limit_s):
 
 
 _LIMITS = {"det_k": 10, "det_k_weak": 10, "rfc6979": 10, "rfc6979_weak": 10, "der": 10, "der_parse": 10,
-           "sign_k": 40, "sign": 40, "pubkey": 40, "verify": 40, "ecdsa_ok": 40}
-_PLIMITS = {"der_rt": 10, "det_k": 10, "det_k_hm": 20, "sign": 60, "sign_k": 60, "verify_ref": 40, "bad_secret": 40}
+           "sign_k": 40, "sign": 40, "pubkey": 40, "verify": 40, "ecdsa_ok": 40,
+           "sign_der": 40, "sign_message": 40, "sign_message_der": 40, "verify_der": 40, "verify_message": 40,
+           "verify_message_der": 40, "verify_wire": 40, "der_reencode": 10, "rfc6979_seq": 10, "rfc6979_seq_weak": 10}
+_PLIMITS = {"der_rt": 10, "det_k": 10, "det_k_hm": 20, "sign": 60, "sign_k": 60, "verify_ref": 40, "bad_secret": 40,
+            "api_roundtrip": 90, "msg_roundtrip": 90, "twin": 90, "dup_digest": 90, "der_strictness": 10,
+            "det_k_calls": 20}
 for _n, _l in _LIMITS.items():
     IMPL[_n] = _timed(_n, IMPL[_n], _l)
 for _n, _l in _PLIMITS.items():
@@ -631,6 +836,7 @@ def generate(ctx):
     yield from _boundaries_cheap(ctx)
     yield from _generate(ctx)
     yield from _boundaries(ctx)
+    yield from _api_cases(ctx)
     r = ctx.rng
     # ---- boundary class: byte strings with leading zero bytes inside the RFC 6979 derivation
     # (a) the 32-byte forms of the secret and of the digest start with 1..31 zero bytes
@@ -666,6 +872,125 @@ def generate(ctx):
         if nzb == 1 and name in ("K2", "T"):
             yield ("corr", "sign", [d, z])
             yield ("prop", "sign", [d, z])
+
+
+def _sec(q, compressed):
+    if compressed:
+        return bytes([2 + (q[1] & 1)]) + q[0].to_bytes(32, "big")
+    return b"\x04" + q[0].to_bytes(32, "big") + q[1].to_bytes(32, "big")
+
+
+def _api_cases(ctx):
+    """sections 6-10 of Props/C01.v: DER strictness / lengths, RFC 6979 as a sequence, verification algebra,
+    and the outer API (Model/EcdsaApi.v) — valid and malformed inputs"""
+    r = ctx.rng
+    quick = ctx.tier == "quick"
+    # ---- RFC 6979 as "first acceptable candidate": nonce AND number of rejected candidates (HMAC call count)
+    for i in range(ctx.n(120, 4000)):
+        d, z = rscalar(r), rdigest(r) % TWO256
+        h1 = z.to_bytes(32, "big")
+        yield ("corr", "rfc6979_seq_weak", [d, h1])
+        if i % 4 == 0:
+            yield ("corr", "rfc6979_seq", [d, h1])
+        k, classes = edge_trace(d, z, i % 8)
+        ctx.label("det_k_calls/rejected=%d" % min(len(classes) - 1, 3))
+        yield ("prop", "det_k_calls", [d, z, i % 8])
+
+    # ---- DER: what parse accepts, and where parse . der is the identity
+    strings = []
+    vals = der_class_ints(r)
+    for a in r.sample(vals, ctx.n(60, len(vals))):
+        strings.append(("emitted", ecref.der(a, r.choice(vals))))
+    bodies = [b"\x00" * k + bytes([t]) + ctx.rbytes(n) for k in (0, 1, 2) for t in (0x00, 0x01, 0x7f, 0x80, 0xff)
+              for n in (0, 1, 31, 32, 33)]
+    for rb in bodies:
+        strings.append(("raw-bodies", raw_der(rb, r.choice(bodies))))
+        strings.append(("raw-bodies", raw_der(r.choice(bodies), rb)))
+    for n1, n2 in ((1, 120), (120, 1), (60, 60), (100, 100), (126, 122), (127, 122), (130, 3), (3, 250)):
+        strings.append(("long-bodies", raw_der(b"\x01" + ctx.rbytes(n1 - 1), b"\x01" + ctx.rbytes(n2 - 1))))
+    base = ecref.der(r.getrandbits(256) or 1, r.getrandbits(255) or 1)
+    for bad in der_malformed(r, base):
+        strings.append(("malformed", bad))
+    for _ in range(ctx.n(60, 2000)):
+        strings.append(("random", ctx.rbytes(r.randrange(0, 14))))
+        strings.append(("random-framed", b"\x30" + bytes([r.randrange(0, 12)]) + ctx.rbytes(r.randrange(0, 12))))
+    for name, b in strings:
+        ctx.label("der_strictness/" + name)
+        yield ("corr", "der_reencode", [b])
+        yield ("prop", "der_strictness", [b])
+
+    # ---- the outer API: sign(z).der() / sign_message / verify from DER / from the wire
+    pairs = [(1, 0), (N - 1, TWO256 - 1), (2 ** 255, N)] + [(rscalar(r), rdigest(r) % TWO256) for _ in range(ctx.n(3, 40))]
+    for i, (d, z) in enumerate(pairs):
+        q = ecref.mul(d, ecref.G)
+        rr, s = ecref.ecdsa_sign(d, z)
+        enc = ecref.der(rr, s)
+        ctx.label("api/sign_der")
+        yield ("corr", "sign_der", [d, z])
+        yield ("prop", "api_roundtrip", [d, z])
+        yield ("corr", "verify_der", [list(q), z, enc])
+        rb, sb = enc[4:4 + enc[3]], enc[6 + enc[3]:]
+        variants = [("padded-r", raw_der(b"\x00" + rb, sb)), ("padded-s", raw_der(rb, b"\x00\x00" + sb)),
+                    ("high-s-twin", ecref.der(rr, N - s)), ("truncated", enc[:-1]), ("trailing", enc + b"\x00"),
+                    ("wrong-length-byte", enc[:1] + bytes([enc[1] ^ 1]) + enc[2:]), ("empty", b""),
+                    ("swapped", ecref.der(s, rr))]
+        for name, e in (variants if not quick else [variants[(3 * i + j) % len(variants)] for j in range(3)]):
+            ctx.label("api/verify_der/" + name)
+            yield ("corr", "verify_der", [list(q), z, e])
+        yield ("corr", "verify_der", [list(q), (z + 1) % TWO256, enc])
+        wire = [("sec-compressed", _sec(q, True)), ("sec-uncompressed", _sec(q, False)),
+                ("xonly", q[0].to_bytes(32, "big")), ("other-parity", bytes([5 - _sec(q, True)[0]]) + _sec(q, True)[1:]),
+                ("bad-prefix", b"\x05" + _sec(q, True)[1:]), ("short", _sec(q, True)[:-1]),
+                ("off-curve", b"\x04" + q[0].to_bytes(32, "big") + ((q[1] + 1) % P).to_bytes(32, "big")),
+                ("x>=p", b"\x02" + (P + 1).to_bytes(32, "big")), ("empty", b"")]
+        for name, sec in (wire if not quick or i == 0 else wire[:2] + [wire[2 + (2 * i + j) % 7] for j in range(2)]):
+            ctx.label("api/verify_wire/" + name)
+            yield ("corr", "verify_wire", [sec, z, enc])
+        m, m2 = ctx.rbytes(r.randrange(0, 80)), ctx.rbytes(r.randrange(1, 40))
+        zm = _h256int(m)
+        mr, ms = ecref.ecdsa_sign(d, zm)
+        ctx.label("api/message")
+        yield ("corr", "sign_message", [d, m])
+        yield ("corr", "sign_message_der", [d, m])
+        yield ("corr", "verify_message", [list(q), m, mr, ms])
+        yield ("corr", "verify_message", [list(q), m2, mr, ms])
+        yield ("corr", "verify_message", [list(q), m, mr, N - ms])
+        yield ("corr", "verify_message_der", [list(q), m, ecref.der(mr, ms)])
+        yield ("corr", "verify_message_der", [list(q), m, ecref.der(mr, ms)[:-2]])
+        yield ("prop", "msg_roundtrip", [d, m, m2])
+    for d in BAD_SECRETS:
+        ctx.label("api/bad-secret")
+        yield ("corr", "sign_der", [d, 12345])
+        yield ("corr", "sign_message", [d, b"abc"])
+    for z in BAD_DIGESTS:
+        ctx.label("api/bad-digest")
+        yield ("corr", "sign_der", [3, z])
+
+    # ---- verification algebra: twin (r, n - s) for every r, s; digest mod n; the second digest; infinity key
+    for i in range(ctx.n(7, 42)):
+        d, z = rscalar(r), rdigest(r) % TWO256
+        q = list(ecref.mul(d, ecref.G))
+        rr, s = ecref.ecdsa_sign(d, z)
+        tup = [(q, z, rr, s), (q, z, rr, 0), (q, z, rr, N), (q, z, rr, -s), (q, z, r.randrange(1, N), r.randrange(1, N)),
+               (q, z, rr, s + N), ([], z, rr, s)][i % 7]
+        ctx.label("twin/" + ["valid", "s=0", "s=n", "s<0", "random", "s+n", "infinity-key"][i % 7])
+        yield ("prop", "twin", list(tup))
+        yield ("corr", "verify", [tup[0], tup[1], tup[2], N - tup[3]])
+    for _ in range(ctx.n(3, 20)):
+        d, z = rscalar(r), rdigest(r) % TWO256
+        q = list(ecref.mul(d, ecref.G))
+        rr, s = ecref.ecdsa_sign(d, z)
+        z2 = (-z - 2 * rr * d) % N
+        yield ("prop", "dup_digest", [d, z])
+        yield from _vcases(ctx, "second-digest(-z-2rd)/accepted", (q, z2, rr, s))
+        yield from _vcases(ctx, "second-digest(-z-2rd)/+1", (q, (z2 + 1) % N, rr, s))
+    for _ in range(ctx.n(2, 12)):
+        z, s = rdigest(r), r.randrange(1, N)
+        pt = ecref.mul(z * pow(s, -1, N) % N, ecref.G)
+        if pt is None or pt[0] % N == 0:
+            continue
+        yield from _vcases(ctx, "infinity-key/forged-without-a-secret", ([], z, pt[0] % N, s))
+        yield from _vcases(ctx, "infinity-key/forged/r+1", ([], z, pt[0] % N + 1, s))
 
 
 def _vcases(ctx, label, tup):
